@@ -6,8 +6,9 @@
    Also: [occurs x s] (x appears in a non-binding position), [pfresh A t] (binders of an AxCut
    statement fresh along every path w.r.t. the ids A). *)
 From Coq Require Import List ZArith NArith String Bool Lia.
-From SCC Require Import Base.Sexp Lang.SynUtil Lang.CoreSyn Lang.AxSyn Sem.FsCheck Model.Shrink Proof.ShrinkProof.
+From SCC Require Import Base.Sexp Lang.SynUtil Lang.CoreSyn Lang.AxSyn Sem.FsCheck Sem.FsFrag2 Model.Shrink Proof.ShrinkProof.
 Import ListNotations.
+From SCC Require Export Sem.FsFrag2.
 Open Scope list_scope.
 
 (* ---------- focused Core ---------- *)
@@ -359,36 +360,6 @@ Qed.
 Lemma ub_notin : forall s S, ub_stmt S s = true -> forall i, In i (cbinders s) -> ~ In i S.
 Proof. apply ub_notin_all. Qed.
 
-(* ---------- identifiers with the same id have the same name (what `uniquify` guarantees) ----------
-   [nc_stmt L s]: every variable occurrence of s is, by id, the first entry of L (the names in scope,
-   innermost first) with that id - and spelled the same. *)
-Definition nc_var (L : list cident) (x : cident) : bool :=
-  match find (fun y => N.eqb (cid_id y) (cid_id x)) L with
-  | Some y => cident_eqb y x
-  | None => false
-  end.
-Fixpoint nc_term (L : list cident) (t : fsterm) {struct t} : bool :=
-  match t with
-  | FsXVar _ v _ => nc_var L v
-  | FsLit _ => true
-  | FsOp a _ b => nc_var L a && nc_var L b
-  | FsMu _ v s _ => nc_stmt (v :: L) s
-  | FsXtor _ _ args _ => forallb (nc_var L) (cvars args)
-  | FsXCase _ cls _ =>
-      (fix go (cls : list fsclause) : bool :=
-         match cls with
-         | [] => true
-         | FsClause _ _ ctx body :: r => nc_stmt (cvars ctx ++ L) body && go r
-         end) cls
-  end
-with nc_stmt (L : list cident) (s : fsstmt) {struct s} : bool :=
-  match s with
-  | FsCut p _ k => nc_term L p && nc_term L k
-  | FsIfC _ a b t e => nc_var L a && match b with Some b' => nc_var L b' | None => true end && nc_stmt L t && nc_stmt L e
-  | FsPrint _ a next => nc_var L a && nc_stmt L next
-  | FsCall _ args => forallb (nc_var L) (cvars args)
-  | FsExit v => nc_var L v
-  end.
 Definition nc_clauses (L : list cident) (cls : list fsclause) : bool :=
   forallb (fun cl => nc_stmt (cvars (clause_ctx cl) ++ L) (clause_body cl)) cls.
 Lemma nc_term_xcase : forall L c cls t, nc_term L (FsXCase c cls t) = nc_clauses L cls.
